@@ -7,7 +7,8 @@ from vlib.chrunner import Cond
 
 PROP = "C08"
 FLDS = {0: "child text", 1: "child tail", 2: "root text", 3: "grandchild text"}
-AK = {0: "plain attribute", 1: "prefixed attribute", 2: "xml: attribute", 3: "prefixed attribute + re-declared prefix"}
+AK = {0: "plain attribute", 1: "prefixed attribute", 2: "xml: attribute", 3: "prefixed attribute + re-declared prefix",
+      4: "URI seen under p on the root, reachable only as q where p is re-bound"}
 
 
 def public_api_check():
@@ -18,7 +19,7 @@ def public_api_check():
     n = 0
     for val in (None, "", " ", "a", " a ", "a  b", "\t", " \n ", "a\nb", "  ", " a  b "):
         for clean, collapse, literal, redeclare in itertools.product((False, True), repeat=4):
-            for p in (0, 1, 2, 3, 10, 20, 30):
+            for p in (0, 1, 2, 3, 10, 20, 30, 40):
                 h_c08.FLD, h_c08.AKIND = p % 10, p // 10
                 n += 1
                 try:
@@ -36,7 +37,7 @@ def run(tier, only=None):
     t = 420 if tier == "quick" else 1800
     ladder = [2, 1] if tier == "quick" else [4, 3]
     conds = []
-    for fld, ak in [(0, 0), (0, 1), (0, 2), (0, 3), (1, 0), (2, 1), (3, 3)] + ([(1, 3), (2, 0), (3, 0)] if tier != "quick" else []):
+    for fld, ak in [(0, 0), (0, 1), (0, 2), (0, 3), (0, 4), (1, 0), (2, 1), (3, 3)] + ([(1, 3), (2, 0), (3, 0)] if tier != "quick" else []):
         conds.append(Cond("harness.h_c08", "h_import", t, part=ak * 10 + fld, ladder=ladder, label="h_import[%s; %s]" % (FLDS[fld], AK[ak])))
     if only:
         conds = [c for c in conds if only in c.label]
